@@ -818,6 +818,88 @@ func (g *gen) wireCase(o slip.Object) (term string, d caseDesc, ok bool) {
 	return term, d, true
 }
 
+// layoutContentCases enumerates (not samples) the products described at part F. The pretty printer renders a vector or
+// array that is an element of a list into a buffer of its own (createTree, default branch) and places that buffer in
+// the layout tree; whatever is done to such a leaf because of where it sits (offset, wrapping) must not reach into the
+// lexemes the buffer holds. Content lexemes: names and strings with a newline / return / tab / several blanks at the
+// start, in the middle, at the end, doubled, next to a parenthesis; the named white-space characters.
+func layoutContentCases(thorough bool) (out []repairedCase) {
+	sym := func(s string) slip.Object { return slip.Symbol(s) }
+	str := func(s string) slip.Object { return slip.String(s) }
+	lexemes := []struct {
+		id string
+		o  slip.Object
+	}{
+		{"sym-nl-mid", sym("x\ny")}, {"sym-nl-first", sym("\nx")}, {"sym-nl-last", sym("x\n")}, {"sym-nl-twice", sym("a\n\nb")},
+		{"sym-nl-blank", sym("a\n b")}, {"sym-cr", sym("a\rb")}, {"sym-tab", sym("a\tb")}, {"sym-two-blanks", sym("a  b")},
+		{"sym-nl-paren", sym("a\n(b")}, {"sym-only-nl", sym("\n")}, {"kw-nl", sym(":k\nw")},
+		{"str-nl-mid", str("x\ny")}, {"str-only-nl", str("\n")}, {"str-nl-indent", str("a\n  b")}, {"str-two-blanks", str("two  blanks")},
+		{"str-crlf", str("a\r\nb")}, {"str-nl-parens", str("(\n)")}, {"str-nl-last", str("x\n")},
+		{"chr-newline", slip.Character('\n')}, {"chr-space", slip.Character(' ')}, {"chr-tab", slip.Character('\t')},
+	}
+	one, filler := slip.Symbol("one"), slip.Fixnum(2)
+	vec := func(l ...slip.Object) slip.Object { return slip.NewVector(len(l), slip.TrueSymbol, nil, slip.List(l), false) }
+	carriers := []struct {
+		id string
+		f  func(x slip.Object) slip.Object
+	}{
+		{"vector-last", func(x slip.Object) slip.Object { return vec(one, x) }},
+		{"vector-only", func(x slip.Object) slip.Object { return vec(x) }},
+		{"vector-first", func(x slip.Object) slip.Object { return vec(x, one, filler) }},
+		{"array-2x2", func(x slip.Object) slip.Object {
+			return slip.NewArray([]int{2, 2}, slip.TrueSymbol, nil, slip.List{slip.List{slip.Fixnum(1), x}, slip.List{slip.Fixnum(3), slip.Fixnum(4)}}, false)
+		}},
+		{"array-2x1x1", func(x slip.Object) slip.Object {
+			return slip.NewArray([]int{2, 1, 1}, slip.TrueSymbol, nil, slip.List{slip.List{slip.List{one}}, slip.List{slip.List{x}}}, false)
+		}},
+		{"vector-in-vector", func(x slip.Object) slip.Object { return vec(vec(x), filler) }},
+		{"list-in-vector", func(x slip.Object) slip.Object { return vec(slip.List{one, x}, filler) }},
+		{"list", func(x slip.Object) slip.Object { return slip.List{one, x} }}, // no leaf buffer: the control
+	}
+	outers := []struct {
+		id string
+		f  func(k slip.Object) slip.Object
+	}{
+		{"only-element", func(k slip.Object) slip.Object { return slip.List{k} }},
+		{"second-element", func(k slip.Object) slip.Object { return slip.List{slip.Symbol("k"), k} }},
+		{"first-of-inner", func(k slip.Object) slip.Object { return slip.List{slip.List{k}, slip.Symbol("k")} }},
+		{"deep-wrapped", func(k slip.Object) slip.Object {
+			return slip.List{slip.Symbol("alpha"), slip.List{slip.Symbol("beta"), k, slip.String("some text")}, slip.Symbol("gamma")}
+		}},
+		{"before-dotted-tail", func(k slip.Object) slip.Object { return slip.List{k, slip.Tail{Value: slip.Symbol("tl")}} }},
+		{"list-in-top-vector", func(k slip.Object) slip.Object { return vec(slip.List{k}) }},
+		{"top-level", func(k slip.Object) slip.Object { return k }}, // offset 0: the control
+	}
+	base := cfg{base: 10, pcase: "down", pretty: true, margin: -1, readably: true, escape: true, array: true}
+	margins := []int{1, 12, 30, -1}
+	n := 0
+	for _, lx := range lexemes {
+		for _, ca := range carriers {
+			for _, ou := range outers {
+				o := ou.f(ca.f(lx.o))
+				id := lx.id + "/" + ca.id + "/" + ou.id
+				for mi, m := range margins {
+					for ri, readably := range []bool{true, false} {
+						// quick tier: two of the eight (margin, readably) configurations per object, rotating so that every
+						// (lexeme, carrier) pair meets every margin and both values of *print-readably* over the outer shapes
+						if !thorough && (mi*2+ri)%4 != n%4 {
+							continue
+						}
+						c := base
+						c.margin, c.readably = m, readably
+						if n%7 == 3 {
+							c.pcase = "up"
+						}
+						out = append(out, repairedCase{id, c, o})
+					}
+				}
+				n++
+			}
+		}
+	}
+	return
+}
+
 type repairedCase struct {
 	id string
 	c  cfg
@@ -1097,9 +1179,16 @@ func Run(ctx *common.Ctx) {
 		add(rc.c, rc.o, true)
 		ctx.Hist("repaired:" + rc.id)
 	}
+	// part F: white space that is CONTENT (inside a |symbol|, a string, a character) against white space that is
+	// LAYOUT: every content lexeme x every leaf carrier (vector / array, which createTree renders into a leaf buffer)
+	// x every outer shape that places the carrier at a non-zero offset or wraps it, under *print-pretty* t
+	for i, lc := range layoutContentCases(ctx.Thorough()) {
+		add(lc.c, lc.o, i%3 == 0)
+		ctx.Hist("layout-content:" + lc.id)
+	}
 	_ = utf8.RuneError
 	ctx.Meta.DistinctNontrivial = len(distinct)
-	ctx.Meta.Rule = "part A: every ASCII character and 15 boundary scalars as a character, inside a string, as a symbol name alone and in a list, under a flat readable and a pretty configuration; part B: integers (boundary, small, int64, up to 200 bits, base^k-1) in every base 2..36 with and without *print-radix*; part C: random objects (depth <= 3, lists, dotted lists, vectors, arrays of rank 2-3; integers, ratios, floats of the three formats, strings and characters over 24 scalar classes, 100 listed symbol names incl. ones needing |quoting| plus random ASCII names, nil, t) x random printer configuration (base 2..36, radix, case 4 values, pretty, right margin 1..200 or nil, readably, escape, array); 40% of the pairs go through write-to-string with every keyword and read-from-string; part E: for each of the thirteen repaired findings (repo_fixes C03-2..C03-14) objects of the shape that used to fail under the configurations that failed (number-like names, names needing bars in nested pretty lists under small margins, | \\ and control bytes, keywords, ?, non-ASCII names, the dot in every list position, nil/NIL, @-names, NUL, the sixteen characters printed by code, arrays of rank 2..17 under every radix prefix), each through Printer.Append and through write-to-string; distinct = distinct (configuration, object, text, read-back) terms"
+	ctx.Meta.Rule = "part A: every ASCII character and 15 boundary scalars as a character, inside a string, as a symbol name alone and in a list, under a flat readable and a pretty configuration; part B: integers (boundary, small, int64, up to 200 bits, base^k-1) in every base 2..36 with and without *print-radix*; part C: random objects (depth <= 3, lists, dotted lists, vectors, arrays of rank 2-3; integers, ratios, floats of the three formats, strings and characters over 24 scalar classes, 100 listed symbol names incl. ones needing |quoting| plus random ASCII names, nil, t) x random printer configuration (base 2..36, radix, case 4 values, pretty, right margin 1..200 or nil, readably, escape, array); 40% of the pairs go through write-to-string with every keyword and read-from-string; part E: for each of the thirteen repaired findings (repo_fixes C03-2..C03-14) objects of the shape that used to fail under the configurations that failed (number-like names, names needing bars in nested pretty lists under small margins, | \\ and control bytes, keywords, ?, non-ASCII names, the dot in every list position, nil/NIL, @-names, NUL, the sixteen characters printed by code, arrays of rank 2..17 under every radix prefix), each through Printer.Append and through write-to-string; part F (enumerated, not sampled; *print-pretty* t): 21 content lexemes (symbols, a keyword and strings with a newline / return / tab / doubled blank at the start, in the middle, at the end, twice, next to a parenthesis; the characters Newline Space Tab) x 8 carriers (vector with the lexeme last / only / first, 2x2 and 2x1x1 array, vector in vector, list in vector, plain list as control) x 7 outer shapes (only element, second element, first of an inner list, wrapped two levels deep, before a dotted tail, list in a top-level vector, top level as control) x 2 of the 8 (right margin 1/12/30/nil, *print-readably* t/nil) configurations in rotation (all 8 in the thorough tier); distinct = distinct (configuration, object, text, read-back) terms"
 	header := "From C03 Require Import Model Spec Corr.\nLocal Open Scope N_scope.\n"
 	footer := "Definition res := Eval vm_compute in check_all cases.\nPrint res.\nDefinition gcount := Eval vm_compute in guard_count cases.\nPrint gcount.\nDefinition outside := Eval vm_compute in outside_failures cases.\nPrint outside.\nDefinition textdiff := Eval vm_compute in text_differences cases.\nPrint textdiff.\nDefinition drift := Eval vm_compute in drift_outside_guard cases.\nPrint drift.\n"
 	ctx.WriteShards("cases", header, "case", footer, terms, descs, 16)
